@@ -474,7 +474,7 @@ pub fn bang(r: &mut Runner, line: &str) {
             let d: u32 = t[2].parse().unwrap();
             let q: String = (0..n).map(|i| (b'a' + ((i * 7 + i / 5) % 23) as u8) as char).collect();
             match fst::automaton::Levenshtein::new_with_limit(&q, d, 10_000_000) {
-                Err(_) => r.notes.push("levbig: construction refused".to_string()),
+                Err(e) => r.fail(format!("C17 Levenshtein::new_with_limit(.., {}, 10_000_000) for a {}-character query refused: {:?}", d, n, e)),
                 Ok(lev) => {
                     use fst::automaton::Automaton;
                     let qa: Vec<char> = q.chars().collect();
@@ -510,6 +510,48 @@ pub fn bang(r: &mut Runner, line: &str) {
                         }
                     }
                     r.check(bad == 0, || format!("C17 {} of 450 keys near a {}-character query decided wrongly (d={})", bad, n, d));
+                }
+            }
+        }
+        "!levlimit" => {
+            // !levlimit <hexq> <d>: the caller's state limit is the one that applies, also above
+            // the default: Ok iff the automaton has at most `limit` states, else
+            // TooManyStates(limit) with the caller's number
+            #[cfg(feature = "hooks")]
+            {
+                use fst::automaton::{Levenshtein, LevenshteinError};
+                let q = String::from_utf8(unhex(t[1])).unwrap();
+                let d: u32 = t[2].parse().unwrap();
+                match Levenshtein::new_with_limit(&q, d, 1 << 40) {
+                    Err(e) => r.fail(format!("C17 new_with_limit({:?}, {}, 2^40) refused: {:?}", q, d, e)),
+                    Ok(big) => {
+                        let n = big.verif_num_states();
+                        r.notes.push(format!("levlimit: {:?} d={} has {} states", q, d, n));
+                        let dflt = Levenshtein::verif_default_state_limit();
+                        for limit in [1usize, n.saturating_sub(1), n, n + 1, dflt, dflt + 1, 10 * dflt, 100 * dflt] {
+                            let got = Levenshtein::new_with_limit(&q, d, limit);
+                            let ok = match &got {
+                                Ok(l) => n <= limit && l.verif_num_states() == n,
+                                Err(LevenshteinError::TooManyStates(k)) => n > limit && *k == limit,
+                            };
+                            r.check(ok, || {
+                                format!(
+                                    "C17 new_with_limit({:?}, {}, {}) = {} but the automaton has {} states",
+                                    q,
+                                    d,
+                                    limit,
+                                    match &got {
+                                        Ok(l) => format!("Ok({} states)", l.verif_num_states()),
+                                        Err(e) => format!("Err({:?})", e),
+                                    },
+                                    n
+                                )
+                            });
+                        }
+                        // `new` = the default limit
+                        let viadefault = Levenshtein::new(&q, d);
+                        r.check(viadefault.is_ok() == (n <= dflt), || format!("C17 Levenshtein::new({:?}, {}) ok={} with {} states (default limit {})", q, d, viadefault.is_ok(), n, dflt));
+                    }
                 }
             }
         }
